@@ -35,4 +35,17 @@ def viewOk (s : Store) (now : Nat) (view : List Key) : Bool :=
 def holds (ttl : Nat → Nat) (pre : Store) (tr : List Ev) (view : List Key) : Bool :=
   (replay ttl pre tr).good && viewOk (replay ttl pre tr).store (replay ttl pre tr).now view
 
+/-! Vocabulary for stating uniqueness on a history. -/
+
+/-- Events that neither release the key nor let `ttl` elapse keep a marker written at `t0` live. -/
+def quiet (k : Key) : Ev → Bool
+  | .rel _ kind id => decide ((kind, id) ≠ k)
+  | _ => true
+
+def elapsed : List Ev → Nat
+  | [] => 0
+  | .tick dt :: r => dt + elapsed r
+  | _ :: r => elapsed r
+
+
 end Tunnox.C15
